@@ -72,6 +72,7 @@ structure R (s : St) (t : Spec.LSt) : Prop where
   sigs : AR SigR s.impls t.sigs
   ownedT : t.ownedT = s.ownedT
   ownedK : AR (PtrR t.sigs t.next) s.ownedK t.ownedK
+  ownedG : t.ownedG = s.ownedG
   next : t.next = s.next
   depth : t.depth = s.depth
   steps : t.steps = s.steps
